@@ -16,6 +16,12 @@ def resolve(spec):
     modname, _, path = spec.partition(':')
     obj = importlib.import_module(modname)
     for part in path.split('.'):
+        if part.startswith('<') and part.endswith('>'):
+            # '<name>': the function held in the closure variable `name` (decorated functions)
+            fn = getattr(obj, '__vp_original__', obj)
+            idx = fn.__code__.co_freevars.index(part[1:-1])
+            obj = fn.__closure__[idx].cell_contents
+            continue
         if isinstance(obj, type):
             # name-mangled privates
             if part.startswith('__') and not part.endswith('__'):
